@@ -65,6 +65,10 @@ GUARDS = [
     (['C02'], 'finalize_bucket', 'src/xact.cc', r'bool\s+xact_base_t::finalize\s*\(\s*\)\s*\{', [
         'if (journal && journal->bucket && posts.size() == 1 && ! balance.is_null()) {',
         'null_post = new post_t(journal->bucket, ITEM_INFERRED);']),
+    (['C02'], 'bucket_latest_declaration_wins_A', 'src/textual.cc', r'void\s+instance_t::default_account_directive\s*\(', [
+        'context.journal->bucket = top_account()->find_account(skip_ws(line));']),
+    (['C02'], 'bucket_latest_declaration_wins_default', 'src/textual.cc', r'void\s+instance_t::account_default_directive\s*\(', [
+        '{ context.journal->bucket = account; }']),
     (['C01'], 'finalize_implied_rate', 'src/xact.cc', r'bool\s+xact_base_t::finalize\s*\(\s*\)\s*\{', [
         'std::size_t commodities_left = 0; if (! null_post && balance.is_balance()) foreach (const balance_t::amounts_map::value_type& pair, balance.as_balance().amounts) if (! pair.second.is_realzero()) commodities_left++;',
         'if (commodities_left == 2) {',
